@@ -11,13 +11,15 @@ from vk.props.c01 import CLASSES, place, ref_exp
 ID = "C20"
 LEVEL = "exploration"
 RULE = (
-    "Hypothesis draws (a) segment tables with or without a cn column over autosome/X/Y/PAR rows (segments starting at 0 "
-    "included), ploidy 1..6, sample sex x reference sex x naming x PAR genome, label mode, and checks export_bed for all "
-    "three --show modes and export_vcf (body parsed back by the harness); (b) 1..5 .cns/.cnr files written to a temp "
-    "directory (shared or mismatching bins, duplicate sample IDs) for export seg (names kept or enumerated), "
-    "merge_samples + jtv/cdt and nexus-basic. Oracle: copy number = given cn else nearest integer to r*2^log2, expected "
-    "copies x and r restated from the statement (shared with C01), records re-derived row by row. Non-trivial = a table "
-    "with a loss, a gain and a neutral segment and a sex-chromosome row (a), or >= 2 samples (b); distinct = distinct case JSON."
+    "Hypothesis draws (a) segment tables with or without a cn column over autosome/X/Y/PAR rows (segments "
+    "starting at 0 included), ploidy 1..6, sample sex x reference sex x naming x PAR genome, label mode, and "
+    "checks export_bed for all three --show modes and export_vcf (body parsed back by the harness); (b) 1..5 "
+    ".cns/.cnr files written to a temp directory (shared or mismatching bins, duplicate sample IDs) for export "
+    "seg (names kept or enumerated), merge_samples + jtv/cdt and nexus-basic. The shared bins of (b) sit at 0, "
+    "2.4e8 or beyond 2^31. Oracle: copy number = given cn else nearest integer to r*2^log2, expected copies x and "
+    "r restated from the statement (shared with C01), records re-derived row by row. Non-trivial = a table with a "
+    "loss, a gain and a neutral segment and a sex-chromosome row (a), or >= 2 samples (b); distinct = distinct "
+    "case JSON."
 )
 QUICK = {"examples": 3200, "shards": 16, "budget_s": 300}
 THOROUGH = {"examples": 24000, "shards": 16, "budget_s": 2400}
